@@ -317,6 +317,7 @@ Definition is_connect_ok (q : req) (r : resp) : bool :=
 Definition final_close (closing : bool) (q : req) (r : resp) : bool :=
   if closing && wr_close_when_closing then true
   else if is_connect_ok q r && wr_connect_keeps_open then false
+  else if (r_code r =? 101) && wr_upgrade_keeps_open then false
   else r_close r || (wr_close_when_req_close && q_close q).
 
 Inductive wkind := WConnectOK | WHeaderOnly | WGo (pats : list pat).
@@ -329,7 +330,8 @@ Definition discard_body (q : req) (r : resp) : resp :=
 (* repair of responses whose length is unknown and that carry no framing the
    client understands (present in the source iff wr_frames_unknown_length) *)
 Definition reframe (q : req) (r : resp) : resp :=
-  if wr_frames_unknown_length && (r_cl r =? -1)%Z && negb (is_header_only (q_method q) (r_code r))
+  if wr_frames_unknown_length && (r_cl r =? -1)%Z && negb (is_header_only (q_method q) (r_code r)) &&
+     negb (is_connect_ok q r)
   then
     if negb (proto_at_least_11 (q_major q) (q_minor q)) then set_close (set_chunked r false) true
     else if negb (r_chunked r) && negb (r_close r) then
